@@ -96,7 +96,41 @@ def program(rng, pid):
                 out.append(scalar())
         return out
 
-    shape = rng.choice(["line", "diamond", "loop", "loop", "fill"])
+    shape = rng.choice(["line", "diamond", "loop", "loop", "fill", "partial"])
+    if shape == "partial":
+        # A is only PARTLY initialised; further cells are written on one branch only, so the two values joined at x know
+        # different cells; then a symbolic load (or a symbolic store followed by a load) covers a cell written on one side.
+        # (executions that read a never-written cell are outside the model and not followed)
+        k = rng.choice([0, 0, 1])
+        e = blk([{"op": "ainit", "a": A, "es": es, "lb": le_const(0), "ub": le_const(k * es), "v": val()}, init(B_)])
+        g = hist.cst(rng, ints, rels=("le", "le", "lt", "eq", "ne")) if rng.random() < 0.6 else None
+        c1 = rng.randint(k + 1, 3)
+        tst = [{"op": "astore", "a": A, "i": le_const(c1 * es), "v": le_const(rng.choice([-2, 2, 1])), "es": es, "strong": 0}]
+        fst = []
+        if rng.random() < 0.4:
+            c2 = rng.choice([c for c in range(k + 1, 4) if c != c1])
+            fst = [{"op": "astore", "a": A, "i": le_const(c2 * es), "v": val(), "es": es, "strong": 0}]
+        t = blk(([{"op": "assume", "c": g}] if g else []) + tst)
+        f = blk(([{"op": "assume", "c": negate(g)}] if g else []) + fst)
+        v = rng.choice(ints)
+        u = rng.choice([q for q in ints if q != v])
+        lo = rng.randint(0, c1)
+        hi = rng.randint(c1, 3)
+        st = [{"op": "havoc", "x": v}, {"op": "assume", "c": {"e": le_var(v, -hi), "r": "le"}}, {"op": "assume", "c": {"e": le_var(v, lo, -1), "r": "le"}}]
+        ix = le_var(v) if es == 1 else {"k": 0, "t": [[es, v]]}
+        if rng.random() < 0.6:
+            tail = st + [{"op": "aload", "x": u, "a": A, "i": ix, "es": es}]
+        else:       # a symbolic store (may smash the array), then a load of the cell written on one side
+            tail = st + [{"op": "astore", "a": A, "i": ix, "v": val(), "es": es, "strong": 0},
+                         {"op": "aload", "x": u, "a": A, "i": le_const(c1 * es), "es": es}]
+        x = blk(tail)
+        edge(e, t)
+        edge(e, f)
+        edge(t, x)
+        edge(f, x)
+        kinds = ["int", "int", "int", "arr", "arr1" if b1 else "arr"]
+        return {"id": pid, "shape": "array-" + shape, "es": es, "vars": vars_, "kinds": kinds, "nv": len(vars_),
+                "entry": 1, "exit": len(blocks), "blocks": blocks, "init": []}
     e = blk([init(A), init(B_)] + some(rng.randint(0, 2)))
     if shape == "line":
         m = blk(some(rng.randint(1, 3)))
